@@ -64,39 +64,39 @@ Proof.
       * rewrite (IH r (c :: cur) ltac:(lia)). rewrite L_rev_cons, <- app_assoc. reflexivity.
 Qed.
 
+Lemma lines_lf_keep_L : forall s cur, flat_map (fun l => L l) (lines_lf_keep_aux s cur) = L (rev cur) ++ L s.
+Proof.
+  induction s as [|c r IH]; intros cur.
+  - cbn. destruct cur; cbn; rewrite ?app_nil_r; reflexivity.
+  - cbn [lines_lf_keep_aux]. change (c :: r) with ([c] ++ r). rewrite (proj_app keep [c] r).
+    destruct (c =? 10)%Z eqn:E10.
+    + cbn [flat_map]. rewrite (IH []). change (rev (@nil Z)) with (@nil Z); change (L []) with (@nil Z); cbn [app]. rewrite L_rev_cons, <- app_assoc. reflexivity.
+    + rewrite (IH (c :: cur)). rewrite L_rev_cons, <- app_assoc. reflexivity.
+Qed.
+
 Lemma indent_all_L p t : L p = [] -> L (indent_all p t) = L t.
 Proof.
   intros Hp. unfold indent_all. rewrite L_flat_map.
   rewrite (flat_map_ext _ (fun l => L l)) by (intros l; rewrite proj_app, Hp; reflexivity).
-  unfold splitlines_keep. rewrite (splitlines_keep_L (length t) t [] (le_n _)). reflexivity.
+  unfold lines_lf_keep. rewrite (lines_lf_keep_L t []). reflexivity.
 Qed.
 
-Lemma splitlines_L : forall n s cur, length s <= n -> flat_map (fun l => L l) (splitlines_aux s cur) = L (rev cur) ++ L s.
+Lemma lines_lf_L : forall s cur, flat_map (fun l => L l) (lines_lf_aux s cur) = L (rev cur) ++ L s.
 Proof.
-  induction n as [|n IH]; intros s cur Hn.
-  - destruct s; [|cbn in Hn; lia]. cbn. destruct cur; cbn; rewrite ?app_nil_r; reflexivity.
-  - destruct s as [|c r]; [cbn; destruct cur; cbn; rewrite ?app_nil_r; reflexivity|]. cbn [splitlines_aux]. cbn [length] in Hn.
-    change (c :: r) with ([c] ++ r). rewrite (proj_app keep [c] r).
-    destruct (c =? 13)%Z eqn:E13.
-    + assert (Hc : L [c] = []) by (apply L_sep; apply Z.eqb_eq in E13; subst; reflexivity).
-      destruct r as [|c2 r'].
-      * cbn [flat_map]. change (L []) with (@nil Z). rewrite Hc, !app_nil_r. reflexivity.
-      * destruct (c2 =? 10)%Z eqn:E10.
-        -- cbn [flat_map]. rewrite (IH r' [] ltac:(cbn in Hn; lia)). change (rev (@nil Z)) with (@nil Z); change (L []) with (@nil Z); cbn [app].
-           change (c2 :: r') with ([c2] ++ r'). rewrite (proj_app keep [c2] r').
-           assert (Hc2 : L [c2] = []) by (apply L_sep; apply Z.eqb_eq in E10; subst; reflexivity).
-           rewrite Hc, Hc2. reflexivity.
-        -- cbn [flat_map]. rewrite (IH (c2 :: r') [] ltac:(cbn in *; lia)). change (rev (@nil Z)) with (@nil Z); change (L []) with (@nil Z); cbn [app]. rewrite Hc. reflexivity.
-    + destruct (is_linesep c) eqn:Es.
-      * cbn [flat_map]. rewrite (IH r [] ltac:(lia)). change (rev (@nil Z)) with (@nil Z); change (L []) with (@nil Z); cbn [app]. rewrite (L_sep c Es). reflexivity.
-      * rewrite (IH r (c :: cur) ltac:(lia)). rewrite L_rev_cons, <- app_assoc. reflexivity.
+  induction s as [|c r IH]; intros cur.
+  - cbn. destruct cur; cbn; rewrite ?app_nil_r; reflexivity.
+  - cbn [lines_lf_aux]. change (c :: r) with ([c] ++ r). rewrite (proj_app keep [c] r).
+    destruct (c =? 10)%Z eqn:E10.
+    + assert (Hc : L [c] = []) by (apply Z.eqb_eq in E10; subst; apply L_nl).
+      cbn [flat_map]. rewrite (IH []). change (rev (@nil Z)) with (@nil Z); change (L []) with (@nil Z); cbn [app]. rewrite Hc. reflexivity.
+    + rewrite (IH (c :: cur)). rewrite L_rev_cons, <- app_assoc. reflexivity.
 Qed.
 
 Lemma item_text_L leading body : L (item_text leading body) = L leading ++ L body.
 Proof.
-  unfold item_text. pose proof (splitlines_L (length body) body [] (le_n _)) as H.
-  change (rev (@nil Z)) with (@nil Z) in H. change (L []) with (@nil Z) in H. cbn [app] in H. fold (splitlines body) in H.
-  rewrite <- H. destruct (splitlines body) as [|l ls]; cbn [tl flat_map].
+  unfold item_text. pose proof (lines_lf_L body []) as H.
+  change (rev (@nil Z)) with (@nil Z) in H. change (L []) with (@nil Z) in H. cbn [app] in H. fold (lines_lf body) in H.
+  rewrite <- H. destruct (lines_lf body) as [|l ls]; cbn [tl flat_map].
   - rewrite !proj_app, L_nl. change (L []) with (@nil Z). rewrite !app_nil_r. reflexivity.
   - rewrite !proj_app, L_nl. cbn [app]. f_equal. f_equal. rewrite L_flat_map. apply flat_map_ext. intros line.
     destruct line; [rewrite L_nl; reflexivity|]. rewrite !proj_app, L_spaces, L_nl, app_nil_r. reflexivity.
